@@ -214,11 +214,11 @@ func ApplyMutations(s *Store, sc *CycleScript) {
 
 // waitCaughtUp blocks until the informers behind the cache show exactly the content of the store for every kind the
 // scheduler reads, or gives up after a generous bound (the cycle is then dropped as inconclusive by the caller).
-func waitCaughtUp(c cache.Cache, s *Store, pool string) bool {
+func waitCaughtUp(c cache.Cache, s *Store, pool string) (bool, string) {
 	inPool := func(l map[string]string) bool { return pool == "" || l[PoolLabelKey] == pool }
 	dl := c.GetDataLister()
 	if dl == nil {
-		return false
+		return false, "no data lister"
 	}
 	metaEq := func(a, b *metav1.ObjectMeta) bool {
 		return equality.Semantic.DeepEqual(a.Labels, b.Labels) && equality.Semantic.DeepEqual(a.Annotations, b.Annotations) &&
@@ -408,7 +408,7 @@ func waitCaughtUp(c cache.Cache, s *Store, pool string) bool {
 		}
 		return ""
 	}
-	deadline := time.Now().Add(10 * time.Minute)
+	deadline := time.Now().Add(2 * time.Minute)
 	if os.Getenv("VERIF_DEBUG") != "" {
 		deadline = time.Now().Add(3 * time.Second)
 	}
@@ -416,7 +416,7 @@ func waitCaughtUp(c cache.Cache, s *Store, pool string) bool {
 	for i := 0; ; i++ {
 		last = check()
 		if last == "" {
-			return true
+			return true, ""
 		}
 		if time.Now().After(deadline) {
 			break
@@ -427,10 +427,11 @@ func waitCaughtUp(c cache.Cache, s *Store, pool string) bool {
 			time.Sleep(20 * time.Millisecond)
 		}
 	}
-	if os.Getenv("VERIF_DEBUG") != "" {
-		fmt.Fprintln(os.Stderr, "waitCaughtUp: informers never matched the store:", strings.TrimSpace(last))
+	fmt.Fprintln(os.Stderr, "waitCaughtUp: informers never matched the store:", strings.TrimSpace(last))
+	if i := strings.Index(last, " "); i > 0 {
+		last = last[:i]
 	}
-	return false
+	return false, last
 }
 
 // BumpClaimVersions gives every ResourceClaim whose content changed since the last call a new, larger
